@@ -132,3 +132,33 @@ def asan_env():
     return {"LD_PRELOAD": lib,
             "ASAN_OPTIONS": "detect_leaks=0:abort_on_error=0:exitcode=86:allocator_may_return_null=1",
             "UBSAN_OPTIONS": "print_stacktrace=1:halt_on_error=1:exitcode=87"}
+
+
+SEAM = os.path.join(VERIF, "vt", "shim", "randseam.c")
+
+
+def build_randseam():
+    """Executable that enumerates REPO's random.c (rand_int / rand_double) over all generator words."""
+    h = hashlib.sha1()
+    for fn in (SEAM, os.path.join(SRC, "random.c"), os.path.join(SRC, "random.h"), os.path.join(SRC, "pcg_basic.h")):
+        with open(fn, "rb") as f:
+            h.update(f.read())
+    d = os.path.join(CACHE, "cbuild", "randseam-%s" % h.hexdigest()[:16])
+    exe = os.path.join(d, "randseam")
+    if os.path.exists(exe):
+        return exe
+    os.makedirs(os.path.dirname(d), exist_ok=True)
+    tmp = tempfile.mkdtemp(prefix="vtbuild-", dir=os.path.dirname(d))
+    try:
+        cmd = ["gcc", "-O2", "-I", SRC, SEAM, os.path.join(SRC, "random.c"), "-o", os.path.join(tmp, "randseam"), "-lm"]
+        p = subprocess.run(cmd, capture_output=True, text=True)
+        if p.returncode != 0:
+            raise BuildError("building randseam failed:\n%s\n%s" % (" ".join(cmd), p.stderr[-4000:]))
+        try:
+            os.rename(tmp, d)
+        except OSError:
+            pass
+    finally:
+        if os.path.isdir(tmp):
+            shutil.rmtree(tmp, ignore_errors=True)
+    return exe
